@@ -23,7 +23,7 @@ from vmon.props.c11 import solo_result
 
 LEVEL = "exploration"
 SHARDS = {"quick": 16, "thorough": 16}
-MUST = ["spelling.styles", "trivia.comment", "trivia.pi", "trivia.whitespace", "trivia.paths_probed", "layout.one-line", "layout.crlf", "layout.blank-lines", "layout.tabs", "layout.no-indent", "history.runs", "history.failed_prior_loads",
+MUST = ["spelling.styles", "trivia.comment", "trivia.pi", "trivia.whitespace", "trivia.paths_probed", "special_names.loads", "layout.one-line", "layout.crlf", "layout.blank-lines", "layout.tabs", "layout.no-indent", "history.runs", "history.failed_prior_loads",
         "history.style_changes", "baseline.fresh_process", "path.ContextCalibratorList", "path.EntryList", "path.ComparisonList"]
 RULE = ("case = (document IR, rendering = namespace convention x trivia placement, history of prior loads); fingerprint "
         "(canonical written XML + decode of steered packets) must equal the baseline. Renderings: 15 namespace conventions; inter-element whitespace layouts "
@@ -234,9 +234,48 @@ def run(ctx):
         if i == ids[0]:
             ctx.sample({"doc": i, "parent_paths_probed": len(paths), "example_paths": [p.replace('/SpaceSystem/TelemetryMetaData', '') for p in paths[:10]],
                         "baseline": base[1][:16]})
+    special_names(ctx)
     ctx.count("trivia.paths_probed", len(probed_paths))
     ctx.count("namespace_class_states_seen", len(states))
     ctx.note("namespace class states seen: " + repr(sorted(states))[:600])
+
+
+SPECIAL = ["(1)", "-1", "+1", ",1", "=1", "#1", "@1", "*", "|1", "{1}", "~1", "!", "$", "%1", ";1", "?", "\u00e4", "&1", "<1", ")(", "(", "_x-y.z"[:4]]
+
+
+def special_names(ctx):
+    """names are data, not syntax: containers / parameters / types whose names contain characters XTCE permits in names (everything but
+    . / : [ ] and white space) must load identically under every namespace convention. Referenced by BaseContainer, ContainerRefEntry,
+    ParameterRefEntry and parameterTypeRef."""
+    from space_packet_parser import packets as P
+    from vmon.props.c05 import header_types
+    for si, suffix in enumerate(SPECIAL):
+        if not ctx.mine(si):
+            continue
+        ts, ps = header_types("PKT_APID")
+        ts.append(ir.PType("X" + suffix + "_Type", "integer", ir.IntEnc(8)))
+        ps.append(ir.Param("X" + suffix, "X" + suffix + "_Type"))
+        root = ir.Container("CCSDSPacket", tuple(("p", p.name) for p in ps[:7]), None, None, True)
+        kid = ir.Container("K" + suffix, (("p", "X" + suffix),), "CCSDSPacket", (ir.Comparison("VERSION", "0"),))
+        nest = ir.Container("N" + suffix, (("p", "X" + suffix),))
+        kid2 = ir.Container("Z", (("c", "N" + suffix),), "CCSDSPacket", (ir.Comparison("VERSION", "1"),))
+        grand = ir.Container("G", (), "K" + suffix, (ir.Comparison("TYPE", "1"),))
+        doc = ir.Doc(tuple(ts), tuple(ps), (root, kid, kid2, nest, grand))
+        packets = [bytes(P.create_ccsds_packet(b"\x07", version_number=v, type=t_)) for v, t_ in ((0, 0), (1, 0), (0, 1), (2, 0))]
+        fps = {}
+        for style in (("prefix", "xtce"), ("default",), ("none",), ("prefix", "p"), ("prefix", "K")):
+            fps[style] = load_fp(render.render_doc(doc, ns_style=style), style, doc, packets)
+            ctx.count("evaluations")
+            ctx.count("special_names.loads")
+        ctx.sig("special-name", suffix)
+        outcomes = {k: (v[0], v[1]) for k, v in fps.items()}
+        if len(set(outcomes.values())) > 1:
+            failing = sorted("-".join(k) for k, v in outcomes.items() if v[0] != "ok")
+            cls = "parenthesis" if ("(" in suffix or ")" in suffix) else "other"
+            ctx.violation(f"spelling/names-with-special-characters/{cls}/{'fails-in-' + '+'.join(sorted({f.split('-')[0] for f in failing})) if failing else 'differs'}",
+                          f"a document whose names end in {suffix!r} loads differently under different namespace conventions: "
+                          f"{ {'-'.join(k): v[0] + ('/' + v[1] if v[0] != 'ok' else '') for k, v in outcomes.items()} }",
+                          {"suffix": suffix, "outcomes": {"-".join(k): list(v) for k, v in outcomes.items()}})
 
 
 if __name__ == "__main__":
